@@ -590,7 +590,8 @@ func (m *UDPMuxDefault) connWorker() { //nolint:cyclop
 		_ = m.Close()
 	}()
 
-	buf := make([]byte, receiveMTU)
+	// One byte more than the largest packet we deliver, so that a larger one is noticed.
+	buf := make([]byte, receiveMTU+1)
 	for {
 		n, srcAddrPort, srcUDPAddr, err := m.readFromUDPConn(buf)
 		if m.IsClosed() {
@@ -608,6 +609,13 @@ func (m *UDPMuxDefault) connWorker() { //nolint:cyclop
 			}
 
 			return
+		}
+
+		if n > receiveMTU {
+			// The datagram did not fit and has been cut short by the read.
+			m.params.Logger.Warnf("Dropping oversize packet from %s", srcAddrPort)
+
+			continue
 		}
 
 		srcAddr := canonicalAddrPort(srcAddrPort)
